@@ -193,7 +193,7 @@ theorem value_delivered (cfg : Cfg) (fns : UserFns) (hy : Hyp cfg fns) (inh : Bo
     (hc : annConf (InputFields.parseType cfg.scalars (InputFields.kindOf cfg.schema) inh t) v = true) :
     ∃ p calls w, PydLog.dumpAnn fns (InputFields.parseType cfg.scalars (InputFields.kindOf cfg.schema) inh t) v = .ok (p, calls) ∧
       BaseClient.toJson p = some w ∧ coerce cfg.schema t w = .ok (intended cfg fns v) := by
-  obtain ⟨p, calls, hd, _, w, hj, hco⟩ := dump_good cfg fns hy inh t v ht hc
+  obtain ⟨p, calls, hd, _, _, w, hj, hco⟩ := dump_good cfg fns hy inh t v ht hc
   exact ⟨p, calls, w, hd, hj, hco⟩
 
 /-! ## 2. The property on the complement of the triggers -/
